@@ -441,8 +441,8 @@ def configs(tier):
         if c.name.startswith("LogTanh") or c.name.startswith("GatedLinearUnit/D=2,ctx=1"):
             pass
         for direction in ("forward", "inverse"):
-            if direction == "inverse" and ("PiecewiseCubic" in c.name or "PiecewiseQuadratic" in c.name or c.name.startswith("SqueezeTransform")):
-                continue  # (the squeeze inverse needs an input of the squeezed shape; its forward is covered)
+            if direction == "inverse" and ("PiecewiseCubic" in c.name or "PiecewiseQuadratic" in c.name or c.name.startswith("SqueezeTransform") or ("MaskedPiecewise" in c.name and "K=2" in c.name)):
+                continue  # (the squeeze inverse needs an input of the squeezed shape; its forward is covered; the two-bin autoregressive spline inverse on two rows - D passes x rows x (bins + tails) branches - ran > 40 min on one core)
             cfgs.append({"type": "case", "case": c.name, "direction": direction})
     for net in ("ResidualNet", "ResidualNet/no-context", "ConvResidualNet", "MADE"):
         cfgs.append({"type": "net", "net": net})
